@@ -35,6 +35,12 @@ CLAIMED = {
             "cost consistency and optimality: a dual lower bound evaluated in rationals proves the returned cost is within 1e-4 of "
             "optimal; rejections are confirmed by the exact QP. Thorough adds n=5 and families to 60 variables.",
             "trusted: mc/oracles.py (dual bound arithmetic, qp_exact), self-tested against PAVA in ./setup", "DESIGN.md section 4 C05"),
+    "C06": ("breadth-first search over API-call histories (set labels / re-present stale nodes / compute / re-configure) on the "
+            "real Force engine with fingerprint-deduplicated states and a differential fresh-engine oracle, plus exhaustive "
+            "enumeration of input permutations",
+            "E-HIST to depth 6 (thorough 9) over 11 operations; every compute() is compared with a fresh engine; E-INPUT: every "
+            "permutation of every label multiset (n<=3; n=4 partly in quick) x configs.",
+            "trusted: fingerprint only deduplicates (over-fine); reference = the library itself from a fresh start", "DESIGN.md section 4 C06"),
     "C07": ("bounded-exhaustive enumeration of datasets x directions x scales x domains x engine/layout options x back-ends, each "
             "exported by the real Timeline classes, parsed (SVG via ElementTree, TikZ via anchored regexes) and compared with an "
             "exact affine model of the caller's own data",
@@ -51,6 +57,12 @@ CLAIMED = {
             "C07's dataset scope x 48 configurations with 10 colour/border/tick variants in rotation; SVG and TikZ records must "
             "agree on axis, boxes, links point for point, dots, ticks, colours and texts.", "trusted: mc/draw.py parsers, mc/uni.py",
             "DESIGN.md section 4 C09"),
+    "C10": ("level-synchronous breadth-first search over construct/export histories on 3-4 timeline specs, every history replayed "
+            "on a purged and re-imported library, states = fingerprints of instances plus all labella module/class globals; "
+            "byte comparison with fresh-process references",
+            "All histories to depth 6 (thorough 9, or state-space saturation) over new(X,svg)/new(X,tex)/export(X); the oracle is "
+            "byte equality with the document produced alone in a fresh interpreter.",
+            "trusted: subprocess references; fingerprint over module globals (over-fine)", "DESIGN.md section 4 C10"),
     "C11": ("bounded-exhaustive enumeration of documented input shapes (date ladder x spans x types x sizes; option forms x "
             "directions x algorithms x bounds) on the real constructors and export(); deep-narrow sweep over cluster sizes",
             "No-exception / parses / one mark per datum / degenerate-domain clause on every enumerated shape; thorough adds "
@@ -84,6 +96,10 @@ CLAIMED = {
             "ranges, against a calendar reference model (datetime/timedelta/calendar)",
             "Thorough covers every day 1900-2200; quick covers 9 boundary years; ranges over month-end/week-boundary starts x 5 spans "
             "x steps 1..12.", "trusted: mc/cal.py; week numbering for dt>1 judged numbering-agnostically", "DESIGN.md section 4 C17"),
+    "C18": ("exhaustive re-execution of enumerated calendar/scale/tick/nice/export computations under 5 process time zones "
+            "(tzset) incl. every minute around the 2021 DST transitions; byte comparison with the UTC run",
+            "29,756 (quick) computations x 4 non-UTC zones; any byte of difference is a violation.",
+            "trusted: tzset equivalence with a process started under TZ; tzdata of the image", "DESIGN.md section 4 C18"),
     "C19": ("complete enumeration of all 1,112,064 Unicode scalar values in 4 contexts plus all strings up to length 4 (5) over a "
             "mixed alphabet on the real uni2tex (thorough: also through TimelineTex.export), read-back reference",
             "E-FULL over code points, bounded-exhaustive over strings; accent commands are read back as combining marks and "
